@@ -2427,10 +2427,14 @@ class BADS:
             or self.options["uncertain_incumbent"]
         ):
             tmp_gp = copy.deepcopy(gp)
-            tmp_gp.set_hyperparameters(hyp_best)
-            f_target_mu, fs2 = tmp_gp.predict(np.atleast_2d(u))
-
-            f_target_s = np.sqrt(np.max(fs2, axis=0))
+            try:
+                tmp_gp.set_hyperparameters(hyp_best)
+                f_target_mu, fs2 = tmp_gp.predict(np.atleast_2d(u))
+                f_target_s = np.sqrt(np.max(fs2, axis=0))
+            except np.linalg.LinAlgError:
+                # No posterior for these hyperparameters on the current
+                # training set: fall back to the incumbent estimate below
+                f_target_mu, f_target_s = np.nan, np.nan
             if (
                 ~np.isfinite(f_target_mu)
                 | ~np.isreal(f_target_s)
